@@ -221,6 +221,69 @@ func (w *worker) runConc(cs J) J {
 	start := make(chan struct{})
 	var wg sync.WaitGroup
 	var broken int32
+	if jStr(cs["mode"]) == "gated" {
+		// Forced interleaving: connection 1 issues ONE command and is held at the moment it first releases the data
+		// store lock (verif hook ds.unlocked); connection 2 then runs its whole program; connection 1 is released.
+		// A command that does its work in one critical section has finished by then and the history is trivially
+		// linearizable; one that comes back for a second critical section has been interleaved with.
+		x := jCmd(jList(progs["1"])[0])
+		for len(w.child.out) > 0 {
+			<-w.child.out
+		}
+		w.ctl("armonce ds.unlocked")
+		if !w.waitLine(func(l string) bool { return strings.HasPrefix(l, "ARMED") }, 3*time.Second) {
+			return fail("gate not armed (built without the verif tag?)")
+		}
+		add(histEvent{stamp: atomic.AddInt64(&stamp, 1), E: "inv", C: 1, I: 1, Cmd: cmdJ(x)})
+		if err := conns[1].Send(x); err != nil {
+			return fail("write: " + err.Error())
+		}
+		parked := w.waitLine(func(l string) bool { return strings.HasPrefix(l, "PARKED ds.unlocked") }, 300*time.Millisecond)
+		if !parked {
+			w.ctl("release ds.unlocked 0") // the command takes no lock: nothing to hold
+			w.waitLine(func(l string) bool { return strings.HasPrefix(l, "RELEASED") }, time.Second)
+		}
+		for i, cm := range jList(progs["2"]) {
+			cmd := jCmd(cm)
+			add(histEvent{stamp: atomic.AddInt64(&stamp, 1), E: "inv", C: 2, I: i + 1, Cmd: cmdJ(cmd)})
+			rep, err := conns[2].Do(cmd...)
+			if err != nil {
+				w.ctl("release ds.unlocked 0")
+				st := fail("connection 2 got no reply while connection 1 was held after releasing the lock: " + err.Error())
+				w.restart()
+				if st["status"] == "error" {
+					st["status"] = "noreply"
+				}
+				return st
+			}
+			add(histEvent{stamp: atomic.AddInt64(&stamp, 1), E: "ret", C: 2, I: i + 1, R: replyJ(rep)})
+		}
+		if parked {
+			w.ctl("release ds.unlocked 0")
+			w.waitLine(func(l string) bool { return strings.HasPrefix(l, "RELEASED") }, time.Second)
+		}
+		rep, err := conns[1].Read()
+		if err != nil {
+			st := fail("the held command got no reply after its release: " + err.Error())
+			w.restart()
+			if st["status"] == "error" {
+				st["status"] = "noreply"
+			}
+			return st
+		}
+		add(histEvent{stamp: atomic.AddInt64(&stamp, 1), E: "ret", C: 1, I: 1, R: replyJ(rep)})
+		ids = ids[:0]
+		for k := range progs {
+			var n int
+			fmt.Sscan(k, &n)
+			ids = append(ids, n)
+		}
+		sort.Ints(ids)
+		for _, c := range ids {
+			_ = c
+		}
+		goto recorded
+	}
 	for _, c := range ids {
 		cmds := jList(progs[fmt.Sprint(c)])
 		wg.Add(1)
@@ -276,6 +339,7 @@ func (w *worker) runConc(cs J) J {
 	}
 	close(start)
 	wg.Wait()
+recorded:
 	if atomic.LoadInt32(&broken) != 0 {
 		st := fail("a connection got no reply (timeout / closed)")
 		w.restart()
